@@ -30,6 +30,13 @@ def gen_case(rng, tier, damaged, single_ok=True):
             "via": rng.choice(["lib", "lib", "cli", "cli-check"]), "form": rng.choice(["root", "parent"]),
             "order_seed": rng.randrange(1 << 20), "damage": [],
             "prelude": rng.randrange(1, 1 << 30) if rng.random() < 0.3 else None}
+    if enc[0] == "tool" and rng.random() < 0.3:
+        from .meta_family import gen_request
+        steps = []
+        for _ in range(rng.choice([1, 1, 2])):
+            r = rng.choice(["lib", "cli"])
+            steps.append({"route": r, "req": gen_request(rng, r), "omit_unnamed": False, "flags_first": False})
+        case["edit_after"] = steps
     if damaged:
         files = tree["files"]
         nonempty = [i for i, f in enumerate(files) if f[1] > 0]
@@ -81,6 +88,15 @@ def make_metafile(case, scratch, root):
         oc = drive.create(which, root, mpath, piece_length=pl, progress=0)
         if not oc.ok:
             return None, oc
+        if case.get("edit_after"):
+            # pipeline: the metafile went through `edit` (and possibly `rename`) before it is rechecked
+            from .meta_family import apply_edit
+            for step in case["edit_after"]:
+                eo = apply_edit(oc.outfile, step)
+                if not eo.ok:
+                    return None, eo
+            with open(oc.outfile, "rb") as fd:
+                oc.raw = fd.read()
         return oc.raw, oc.outfile
     import random
     rng = random.Random(case["order_seed"])
@@ -268,6 +284,8 @@ def _common_result(case, obs, viol, counters, sample_extra=None):
     ref = obs.get("ref")
     if case.get("prelude"):
         counters["cases_with_earlier_rechecks_in_process"] = 1
+    if case.get("edit_after"):
+        counters["cases_with_edited_metafile"] = 1
     sample = {"files": [[f[0], f[1]] for f in case["tree"]["files"][:8]], "piece_length": 2 ** case["pl_exp"],
               "version": case["version"], "encoder": case["encoder"], "via": case["via"], "form": case["form"],
               "damage": case["damage"], "tool_result": obs.get("tool_result"),
